@@ -769,8 +769,12 @@ package larking
 // (the element list of a header value is abandoned only at the end of the value
 // or at a character that is not white space: optional white space around the
 // "," separators never hides the remaining ranges)
+//@ spec QsOK(specs) = forall x :: {at(specs, x).Q} off(specs) <= x && x < off(specs) + len(specs) ==> at(specs, x).Q >= 0
 //@ func parseAccept serves C04 C09
 //@   modifies E$acceptSpec
+//@   ensures [no-negative-weight C04] QsOK(specs)
+//@   loop 1 invariant QsOK(specs)
+//@   loop 2 invariant QsOK(specs)
 //@   assert at `if !strings.HasPrefix(s, ",") {` [list-continues-across-space C04] len(s) == 0 || octetTypes[s[0]] & isSpace == 0
 //@   loop 1 invariant -1 <= rangeindex && rangeindex < len(values)
 //@   loop 1 decreases len(values) - rangeindex
@@ -778,9 +782,19 @@ package larking
 
 //@ spec OneOf(x, offers, upto) = exists k :: 0 <= k && k <= upto && k < len(offers) && same(x, offers[k])
 
+// Admits: the media range v (one element of the Accept header) admits the type o.
+// Chosen: the negotiated type is the untouched default, or it is admitted by a
+// range of the request's Accept header that carries a positive weight.
+//@ spec Admits(v, o) = v == "*/*" || v == o
+//@      || (len(v) >= 2 && v[len(v)-2] == 47 && v[len(v)-1] == 42 && len(o) >= len(v) - 1 && (forall j :: 0 <= j && j < len(v) - 1 ==> o[j] == v[j]))
+//@ spec Chosen(best, dflt, specs, q) = (same(best, dflt) && q < 0)
+//@      || (q > 0 && (exists k :: off(specs) <= k && k < off(specs) + len(specs) && at(specs, k).Q > 0 && Admits(at(specs, k).Value, best)))
 //@ func negotiateContentType serves C04 C05 C09
 //@   modifies E$acceptSpec
 //@   ensures [one-of-the-offers C04] same(result, defaultOffer) || OneOf(result, offers, len(offers))
+//@   ensures [admitted-by-the-accept-header C04] at "return bestOffer" Chosen(bestOffer, defaultOffer, specs, bestQ)
+//@   loop 1 invariant QsOK(specs) && Chosen(bestOffer, defaultOffer, specs, bestQ)
+//@   loop 2 invariant QsOK(specs) && Chosen(bestOffer, defaultOffer, specs, bestQ)
 //@   loop 1 invariant -1 <= rangeindex && rangeindex < len(offers) && (same(bestOffer, defaultOffer) || OneOf(bestOffer, offers, rangeindex))
 //@   loop 1 decreases len(offers) - rangeindex
 //@   loop 2 invariant -1 <= rangeindex#2 && rangeindex#2 < len(specs) && 0 <= rangeindex && rangeindex < len(offers)
